@@ -4,4 +4,4 @@ Require Extraction.
 Require Import ExtrOcamlBasic.
 Extraction "model.ml" conv_anchor decode accept chain_run spaceship rev_spaceship
   extremum_position sort_positions sort_on_positions builtin_sort obj_partial_cmp obj_eq
-  nnum_min nnum_max nnum_total_eq.
+  nnum_min nnum_max nnum_total_eq nnum_partial_cmp nnum_eq.
